@@ -766,6 +766,18 @@ func (e *Engine) Obligations(f *ssa.Function) []*Obl {
 						o.Why = "unreachable"
 					} else if e.poolAssertOK(x) {
 						o.Why = "every object of this sync.Pool has the asserted type (New and every Put)"
+					} else if upcastOK(x) {
+						// an interface value asserted to an interface its static type already implements (what go/ssa emits for
+						// a method value of an interface, `block.Encrypt`): fails only for a nil interface
+						if s := a.stateBefore(x); s != nil && a.isNonNil(s, a.cv(x.X)) {
+							o.Why = "assertion to an interface the static type implements, on a non-nil value"
+						} else {
+							o.Kind, o.Want = "nil", "interface value is non-nil"
+							o.Status, o.Why = Failed, "no dominating non-nil check for "+a.valName(x.X)
+							if h := a.vettedBy(a.stateBefore(x), a.cv(x.X)); h != "" {
+								o.Status, o.Why = Unsupported, untrackedPrefix+"nil-ness of "+a.valName(x.X)+" was examined by "+h
+							}
+						}
 					} else {
 						o.Status, o.Why = Failed, "single-result type assertion on "+a.valName(x.X)
 					}
@@ -904,4 +916,17 @@ func valueRoots(v ssa.Value, depth int) map[ssa.Value]bool {
 	}
 	walk(v, depth)
 	return out
+}
+
+// upcastOK: x.(I) where the static type of x is an interface whose method set includes I's: the assertion cannot fail
+// on the dynamic type, only on a nil interface.
+func upcastOK(x *ssa.TypeAssert) bool {
+	ai, ok := x.AssertedType.Underlying().(*types.Interface)
+	if !ok {
+		return false
+	}
+	if _, ok := x.X.Type().Underlying().(*types.Interface); !ok {
+		return false
+	}
+	return types.Implements(x.X.Type(), ai)
 }
